@@ -103,27 +103,15 @@ package web
 // ---- compression.go (C14): the codec wrappers pass everything through ---------------------------------------
 // Decompress*: the decompressor reads exactly the bytes given, the output buffer is filled from the decompressor
 // itself (not from a reader that may stop early), and what is returned is that buffer's content, once.
-// Compress*: everything given is written to a compressor writing to the given sink, which is closed (flushed)
-// before success is reported. (What the codecs do inside is the dependency's business.)
+// (What the codecs do inside is the dependency's business. The Compress* wrappers stay inlined into their caller,
+// serializeAndCompress, whose call-site clauses fix what they are given.)
 //@ func DecompressWithZlib
 //@   callsite NewReader#2 requires arg0 == input
 //@   callsite NewReader[zlib.NewReader] requires payload(r, bytes.Reader) == lastresult(bytes.NewReader, 0)
 //@   callsite ReadFrom requires r == lastresult(zlib.NewReader, 0) && lastresult(zlib.NewReader, 1) == nil
 //@   ensures  result1 == nil ==> calls(ReadFrom) == 1 && result0 == lastresult(Bytes, 0)
-//@   modifies everything
 //@ func DecompressWithLz4
 //@   callsite NewReader#2 requires arg0 == input
 //@   callsite NewReader[lz4.NewReader] requires payload(r, bytes.Reader) == lastresult(bytes.NewReader, 0)
 //@   callsite ReadFrom requires payload(r, lz4.Reader) == lastresult(lz4.NewReader, 0)
 //@   ensures  result1 == nil ==> calls(ReadFrom) == 1 && result0 == lastresult(Bytes, 0)
-//@   modifies everything
-//@ func CompressWithZlib
-//@   callsite NewWriterLevel requires w == out && level == compressionLevel
-//@   callsite Write requires p == in && receiver == lastresult(NewWriterLevel, 0)
-//@   ensures  result == nil ==> calls(Write) == 1 && calls(Close) == 1
-//@   modifies everything
-//@ func CompressWithLz4
-//@   callsite NewWriter requires w == out
-//@   callsite Write requires receiver == lastresult(NewWriter, 0)
-//@   ensures  result == nil ==> calls(Write) == 1 && calls(Close) == 1
-//@   modifies everything
